@@ -18,7 +18,7 @@ TIERS = {
 }
 OPS = ['parse', 'parse-fails', 'bind', 'call', 'finalize', 'finalize-rejected', 'unlock', 'singleton', 'constant', 'constant-interactive-overlap', 'enum', 'import']
 REQUIRED_BUCKETS = ['op:' + o for o in OPS] + ['clear:keep-constants', 'clear:clear-constants', 'state:locked-at-clear', 'state:operative-nonempty-at-clear',
-                                                'state:imports-at-clear', 'state:singletons-at-clear', 'state:overlapping-constants-at-clear', 'rounds:2+']
+                                                'state:imports-at-clear', 'state:singletons-at-clear', 'state:overlapping-constants-at-clear', 'rounds:2+', 'state:abbreviation-looked-up-before-clear']
 ORACLE_COUNTERS = ['oracle_evals', 'clears_checked']
 _S = {}
 _n = itertools.count(1)
@@ -75,6 +75,7 @@ def run_case(ctx, case):
   shape = []
   for rnd in case['rounds']:
     bound_keys = []
+    short_names = []
     pre_singleton = None
     overlapping = False
     for op in rnd['ops']:
@@ -124,7 +125,13 @@ def run_case(ctx, case):
           pre_singleton = use()
           bound_keys += ['c20use.s']
         elif op == 'constant':
-          gin.constant('c20.k%d.CONST' % k, ('const', k))
+          gin.constant('c20.k%d.CONST%d' % (k, k), ('const', k))
+          # look it up through abbreviations, as config files do
+          ctx.check(gin.query_parameter('CONST%d' % k) == ('const', k) and gin.query_parameter('k%d.CONST%d' % (k, k)) == ('const', k), 'constant-lookup', 'lookup by suffix failed')
+          with gin.unlock_config():
+            gin.parse_config('c20f.y = %%CONST%d' % k)
+          bound_keys += ['c20f.y']
+          short_names.append('CONST%d' % k)
         elif op == 'constant-interactive-overlap':
           with gin.config.interactive_mode():
             gin.constant('c20.i%d.OVER%d' % (k, k), ('outer', k))
@@ -189,6 +196,21 @@ def run_case(ctx, case):
         again = use()
         ctx.check(not any(a is b for a in again for b in pre_singleton), 'singleton-survived-clear', 'a singleton constructed before clear_config was delivered again')
       ctx.check(gin.get_configurable('c20.c20f') is not None and gin.get_configurable(g.original) is not None, 'configurable-lost', 'registered configurables no longer resolve')
+      if cc:
+        # the cleared constants are really gone: their abbreviations are free again (as macro names and for new constants)
+        for sn in short_names:
+          ctx.bucket('state:abbreviation-looked-up-before-clear')
+          try:
+            gin.constant(sn, 'redefined')
+            ok = gin.query_parameter(sn) == 'redefined'
+          except Exception as e:  # pylint: disable=broad-except
+            ok = False
+          ctx.check(ok, 'cleared-constant-still-answers', 'after clear_config(clear_constants=True) the abbreviation %s is still taken by the cleared constant' % sn)
+          try:
+            gin.parse_config('c20f.y = %%c20x.%s' % sn)   # an unrelated name with that suffix is a plain macro now
+            ctx.check(False, 'cleared-constant-still-answers', 'c20x.%s resolved' % sn) if False else None
+          except Exception as e:  # pylint: disable=broad-except
+            ctx.check(False, 'cleared-constant-still-answers', 'parsing %%c20x.%s after the clear raised %r' % (sn, e))
       # leave the round clean (the probe calls above recorded operative entries)
       gin.clear_config(clear_constants=cc)
     else:
